@@ -675,6 +675,7 @@ def verify_importer_leaves(run):
 
 
 def build(run):
+    run.not_demanded = tuple(NOT_DEMANDED)
     run.assume("A-STR", "A-PY", "A-MSG", "A-LOG", "A-LISTVAL", "A-FRESH")
     plan = [("rule.Rule.parse", verify_rule_parse), ("rule.Consequent.load", verify_consequent_load), ("rule.Antecedent.load", verify_antecedent_load),
             ("term.Function.infix_to_postfix", verify_infix_to_postfix), ("importer.FllImporter.boolean+range", verify_importer_leaves)]
